@@ -33,9 +33,10 @@ WITNESS = {     # what-if configuration -> what it lifts
     'Order_w_members': 'sorted() removed from the method lists',
     'Order_w_dupblock': 'two comment blocks for one identifier (last one wins)',
     'Order_w_depoverlap': 'one C type defined by two dependencies (first hit in _parsed_includes order)',
+    'Order_w_rebind': '_parse_fields binds a new list: the record of a second typedef of the tag (aliasing the list) misses a later body',
     'Order_w_diag': 'order of "unknown parameter" diagnostics (set difference iterated) - outside the statement',
 }
-QUICK_WITNESS = ['Order_w_nosort', 'Order_w_dupbody', 'Order_w_cache']
+QUICK_WITNESS = ['Order_w_nosort', 'Order_w_dupbody', 'Order_w_cache', 'Order_w_rebind']
 
 # ------------------------------------------------------------------ dependency GIRs of the "diamond" graph
 _HDR = ('<?xml version="1.0"?>\n<repository version="1.2" xmlns="http://www.gtk.org/introspection/core/1.0" '
@@ -126,7 +127,7 @@ def render(case, depdir):
     by_n = {d['n']: d for d in decls}
     files = {}          # header file -> [symbol]
     lines = {}
-    pairs = []          # (sid of typedef, sid of body)
+    pairs = []          # (sid of typedef, sid of body) or (sid of typedef, sid of second typedef, sid of body)
     declared = []
     dump = []
     sid = [0]
@@ -156,17 +157,22 @@ def render(case, depdir):
             emit(h, dict(k='typedef_anon', name=name, fields=fl, union=union))
             declared.append(dict(cid=name, names=[f[-1] if f[0] == '@fp' else f[1] for f in fl]))
             return
-        t = b = None
-        if pat in ('T', 'TS', 'TSS'):
+        t = t2 = b = None
+        if pat in ('T', 'TS', 'TSS', 'TTS'):
             t = emit(th, dict(k='typedef_struct', name=name, tag=tag, union=union))
-        if pat in ('S', 'TS', 'TSS'):
+        if pat == 'TTS':        # a second typedef name of the same tag (GObject / GInitiallyUnowned)
+            name2 = name[:len(name) - len(suf(d['n']))] + suf(d.get('n2', d['n'] + 5))        # tla: Second(n) = n + 5
+            t2 = emit(th, dict(k='typedef_struct', name=name2, tag=tag, union=union))
+        if pat in ('S', 'TS', 'TSS', 'TTS'):
             b = emit(h, dict(k='struct', tag=tag, fields=fl, union=union))
         if pat == 'TSS':
             emit(h + 1, dict(k='struct', tag=tag, fields=fl, union=union))       # the same body, in another file
-        if t and b:
+        if t and t2 and b:
+            pairs.append((t, t2, b))
+        elif t and b:
             pairs.append((t, b))
         if pat != 'TSS' and b:
-            for cid in (name, tag):
+            for cid in (name, tag) + ((name2,) if t2 else ()):
                 declared.append(dict(cid=cid, names=[f[-1] if f[0] == '@fp' else f[1] for f in fl]))
 
     def function(d, name, ret, params):
@@ -322,12 +328,23 @@ def make_run(base, cfg, rid, cachedir):
     heads = base['headers']
     feed = [s for i in perm(cfg['h'], len(heads), salt) for s in heads[i][1]]
     if cfg['ts'] != 'id':
+        # the body of a tag takes another place among the feed positions of its typedef(s); two typedef names of
+        # one tag keep their relative order (which one names "the" record is sibling order, not typedef/struct order)
         rnd = random.Random('%s:%s' % (salt, cfg['ts']))
-        for t, b in base['pairs']:
-            if cfg['ts'] == 'swap' or rnd.random() < 0.5:
-                it = [i for i, s in enumerate(feed) if s['sid'] == t][0]
-                ib = [i for i, s in enumerate(feed) if s['sid'] == b][0]
-                feed[it], feed[ib] = feed[ib], feed[it]
+        for pr in base['pairs']:
+            tds, b = list(pr[:-1]), pr[-1]
+            at = sorted(i for i, s in enumerate(feed) if s['sid'] in pr)
+            cur = [feed[i]['sid'] for i in at].index(b)
+            if cfg['ts'] == 'swap':
+                k = 0 if cur != 0 else len(at) - 1
+            elif cfg['ts'] == 'mid':
+                k = 1 if len(at) == 3 else cur
+            else:
+                k = rnd.randrange(len(at))
+            order = tds[:k] + [b] + tds[k:]
+            bysid = {feed[i]['sid']: feed[i] for i in at}
+            for i, sid_ in zip(at, order):
+                feed[i] = bysid[sid_]
     cfs = base['cfiles']
     comments = []
     for i in perm(cfg['f'], len(cfs), salt):
@@ -353,7 +370,7 @@ def configs(rng, quick, seedpool):
     R = rng.sample(seedpool, 4)
     out = [B]
     if quick:
-        out += [dict(B, seed=1), dict(B, seed=R[0]), dict(B, b='rev'), dict(B, f='rev'), dict(B, ts='swap'),
+        out += [dict(B, seed=1), dict(B, seed=R[0]), dict(B, b='rev'), dict(B, f='rev'), dict(B, ts='swap'), dict(B, ts='mid'),
                 dict(B, cache='cold', g=0), dict(B, cache='warm', g=0),
                 dict(seed=R[1], b='x1', f='id', ts='mix1', cache='warm', h='id', g=0),
                 dict(B, h='rev')]
@@ -361,7 +378,7 @@ def configs(rng, quick, seedpool):
         out += [dict(B, seed=s) for s in (1, 2, 3, R[0], R[1], R[2], R[3])]
         out += [dict(B, b=x) for x in ('rev', 'r1', 'x1')]
         out += [dict(B, f=x) for x in ('rev', 'r1')]
-        out += [dict(B, ts=x) for x in ('swap', 'mix1', 'mix2')]
+        out += [dict(B, ts=x) for x in ('swap', 'mid', 'mix1', 'mix2')]
         out += [dict(B, cache='cold', g=0), dict(B, cache='warm', g=0), dict(B, seed=1, cache='cold', g=1), dict(B, seed=3, cache='warm', g=1)]
         out += [dict(seed=R[0], b='x2', f='id', ts='mix3', cache='warm', h='id', g=0),
                 dict(seed=2, b='rev', f='rev', ts='swap', cache='warm', h='id', g=1),
@@ -381,13 +398,14 @@ def gen_case(rng, idx, dup=False):
         k = rng.choice(['rec', 'rec', 'uni', 'alias', 'enum', 'flags', 'const', 'cb', 'class', 'iface', 'boxed'])
         d = dict(kind=k, n=n, pat='-', owner=0, uses='-', h=rng.randint(1, nh))
         if k in ('rec', 'uni', 'boxed', 'class', 'iface'):
-            d['pat'] = rng.choice(['TS', 'TS', 'T', 'S', 'A']) if k in ('rec', 'uni') else 'TS'
+            d['pat'] = rng.choice(['TS', 'TS', 'T', 'S', 'A', 'TTS', 'TTS']) if k in ('rec', 'uni') else 'TS'
+            d['n2'] = n + 100
             d['th'] = rng.choice([0, d['h']])
             if k == 'class':
                 d['cth'] = rng.choice([0, d['h']])
                 d['nprops'], d['nsigs'] = rng.randint(0, 4), rng.randint(0, 3)
                 d['impl'] = rng.sample(['GAsyncResult', 'DepBIface'], rng.randint(0, 2))
-            if d['pat'] in ('TS', 'A') or k in ('class', 'boxed'):
+            if d['pat'] in ('TS', 'A', 'TTS') or k in ('class', 'boxed'):
                 owners.append(n)
         decls.append(d)
     ifaces = [d for d in decls if d['kind'] == 'iface']
@@ -514,7 +532,8 @@ def run():
         'c:includes, source roots) fixed per input',
         'preconditions of the statement (excluded from the generated inputs, lifted only in what-if model configurations): comment '
         'block identifiers are unique (duplicates are diagnosed, the last one wins); no C type is defined by two dependency GIRs; '
-        'one typedef per struct tag (a second one is a fatal namespace conflict)',
+        'a typedef NAME is declared once (a repeated typedef is a fatal namespace conflict); a tag may have two typedef names: the '
+        'one fed first names the record of the tag, their relative order is kept, the body takes every position',
         'input class duptag (the body of one struct tag fed twice, accepted by the scanner without diagnostic; the defect repaired '
         'by fd38255) is judged like every other input',
         'PYTHONHASHSEED is set per interpreter; a warm run reads a cache directory filled by a different interpreter '
@@ -562,13 +581,18 @@ def run():
         if not os.path.exists(cfile):
             raise MachineryError('OrderCases exported nothing')
         tcases = sorted(json.load(open(cfile)), key=lambda c: json.dumps(c, sort_keys=True))
+        for c in tcases:                    # struct or union is a rendering choice: record 3 is a union
+            for d in c['decls']:
+                if d['kind'] == 'rec' and d['n'] == 3:
+                    d['kind'] = 'uni'
         if quick:
-            # stratified: every record pattern pair appears, both dependency graphs
+            # stratified: distinct pairs of record patterns, both dependency graphs; two-typedef tags first
             seen, pick = set(), []
             rng.shuffle(tcases)
+            tcases.sort(key=lambda c: -sum(d['pat'] == 'TTS' for d in c['decls']))
             for c in tcases:
-                key = tuple(sorted((d['kind'], d['pat']) for d in c['decls'] if d['kind'] == 'rec')) + (c['deps'],)
-                if key not in seen and len(pick) < 26:
+                key = tuple(sorted((d['kind'], d['pat']) for d in c['decls'] if d['kind'] in ('rec', 'uni'))) + (c['deps'],)
+                if key not in seen and len(pick) < 30:
                     seen.add(key)
                     pick.append(c)
             tcases = pick
